@@ -66,6 +66,10 @@ def build(P):
                               meta=dict(compare=()) if nondet else {}))
         for ch in chunks(cases, 500):
             yield ("mutants", ch)
+        # (a2) every call form of the C04 call matrix (refused arguments included), normal and sanitizer build
+        import prof_flow
+        cm = prof_flow.CALL_MATRIX()
+        yield ("call-matrix", [Case(id="C01-call-%d" % i, prog=(sp + "\n").encode(), meta=dict(units=["call/%d" % i])) for i, sp in enumerate(cm)])
         # (b) token sequences up to length 3 over the vocabulary, as REPL entries
         seqs = [[a] for a in VOCAB] + [[a, b] for a in VOCAB for b in VOCAB]
         n3 = sizes(tier, 12000, 400000)
@@ -265,6 +269,13 @@ def build(P):
                  "divzero": ["OUTPUT 1 DIV 0"], "notopen": ["WRITEFILE \"nofile.txt\", 1"]}
 
     def c11_cases(tier, seed):
+        shapes = [("x.\nOUTPUT 1", 1), ("OUTPUT \"a\"\nx <- (1 +\nOUTPUT 2", 2), ("OUTPUT 1\nIF TRUE THEN\nOUTPUT 2", None), ("OUTPUT 1\nOUTPUT \"unterminated", None), ("OUTPUT 1\nx <- 1 == 2", 2),
+                  ("OUTPUT 1\nx <- 'ab'", 2), ("OUTPUT 1\n$", 2), ("OUTPUT 1\nOUTPUT(2)", 2), ("OUTPUT 1\nNEXT", 2), ("OUTPUT 1\nFOR i <- 1 TO 2\nNEXT j", 3), ("OUTPUT 1\nx <- 99999999999999999999", 2),
+                  ("OUTPUT 1\nPROCEDURE P\nPROCEDURE Q\nENDPROCEDURE\nENDPROCEDURE", 3), ("OUTPUT \"a\\nb\\nc\"\nx <- '\\n'\ny <- )", 3), ("s <- \"\\n\\n\"\nOUTPUT s\nIF THEN", 3), ("OUTPUT 1\nCASE OF 5\nENDCASE", 2), ("OUTPUT 1\nTYPE T = 5", 2), ("OUTPUT 1\nDECLARE : INTEGER", 2),
+                  # faults noticed only at the end of their line
+                  ("OUTPUT 1\ntotal <- 40 +\nOUTPUT 2", 2), ("OUTPUT 1\nOUTPUT\nOUTPUT 2", 2), ("OUTPUT 1\n\n\nx <-\n\nOUTPUT 2", 4), ("OUTPUT 1\nCALL\nOUTPUT 2", 2), ("OUTPUT 1\nx <- 1 +  // why\nOUTPUT 2", 2),
+                  ("OUTPUT 1\nDECLARE x :\nOUTPUT 2", 2), ("OUTPUT 1\nx <- LENGTH(\"a\"\nOUTPUT 2", 2), ("OUTPUT 1\nINPUT\nOUTPUT 2", 2), ("OUTPUT 1\r\nx <- 2 *\r\nOUTPUT 2", 2), ("OUTPUT 1\nx <- 2 *", 2), ("x <- NOT", 1)]
+        yield ("syntax-shapes", [Case(id="C11-shape-%d" % i, prog=(s + "\n").encode(), meta=dict(kind="syntax", line=ln, nlines=s.count("\n") + 1, shape=True)) for i, (s, ln) in enumerate(shapes)])
         cases = []
         n = sizes(tier, 300, 6000)
         for i in range(n):
@@ -331,10 +342,6 @@ def build(P):
                     cases.append(Case(id="C11-rt-%d-%s-%d" % (i, fk, depth), prog=("\n".join(L) + "\n").encode(), meta=dict(kind="runtime", chain=chain)))
         for ch in chunks(cases, 500):
             yield ("runtime-faults", ch)
-        shapes = [("x.\nOUTPUT 1", 1), ("OUTPUT \"a\"\nx <- (1 +\nOUTPUT 2", 2), ("OUTPUT 1\nIF TRUE THEN\nOUTPUT 2", None), ("OUTPUT 1\nOUTPUT \"unterminated", None), ("OUTPUT 1\nx <- 1 == 2", 2),
-                  ("OUTPUT 1\nx <- 'ab'", 2), ("OUTPUT 1\n$", 2), ("OUTPUT 1\nOUTPUT(2)", 2), ("OUTPUT 1\nNEXT", 2), ("OUTPUT 1\nFOR i <- 1 TO 2\nNEXT j", 3), ("OUTPUT 1\nx <- 99999999999999999999", 2),
-                  ("OUTPUT 1\nPROCEDURE P\nPROCEDURE Q\nENDPROCEDURE\nENDPROCEDURE", 3), ("OUTPUT \"a\\nb\\nc\"\nx <- '\\n'\ny <- )", 3), ("s <- \"\\n\\n\"\nOUTPUT s\nIF THEN", 3), ("OUTPUT 1\nCASE OF 5\nENDCASE", 2), ("OUTPUT 1\nTYPE T = 5", 2), ("OUTPUT 1\nDECLARE : INTEGER", 2)]
-        yield ("syntax-shapes", [Case(id="C11-shape-%d" % i, prog=(s + "\n").encode(), meta=dict(kind="syntax", line=ln, nlines=s.count("\n") + 1, shape=True)) for i, (s, ln) in enumerate(shapes)])
 
     def c11_oracle(c, r, m):
         k = c.meta.get("kind")
@@ -411,6 +418,20 @@ def build(P):
             cases.append(repl_case("C12-%d-mixed" % i, mixed, meta=dict(pair=i, role="mixed", noshrink=True)))
         for ch in chunks(cases, 450):
             yield ("split-programs", ch)
+        # single-line entries that END in each kind of token (in the REPL the entry text has no line break after it): same lines as a file
+        endings = ["'a'", "'\\\\'", "'\\''", "'\\n'", "'\\t'", "'\\\"'", "' '", "\"\"", "\"a\"", "\"ends \\\\\"", "\"q\\\"\"", "\"t\\t\"", "\"n\\n\"", "7", "- 7", "2.5", "1e3", "12/11/2020", "TRUE", "ev", "ea[2]", "er.f", "ep^", "(1 + 2)", "LENGTH(\"ab\")", "MID(\"abc\", 2, 1)", "Col2"]
+        pre = ["ev <- 3", "DECLARE ea : ARRAY[1:3] OF INTEGER", "ea[2] <- 4", "TYPE ER\nDECLARE f : INTEGER\nENDTYPE", "DECLARE er : ER", "er.f <- 6", "TYPE EP = ^INTEGER", "DECLARE ep : EP", "ep <- ^ev", "TYPE ECol = (Col1, Col2)"]
+        for k, e in enumerate(endings):
+            for fi, form in enumerate(("OUTPUT %s", "OUTPUT \"[\", %s", "zz%d <- %%s" % k, "OUTPUT \"x\" // c %s", "IF TRUE THEN OUTPUT %s", "OUTPUT 1 // %s")):
+                lines_e = pre + [form % e, "OUTPUT \"next\"", "zz%d" % k if form.startswith("zz") else "OUTPUT \"end\""]
+                pid = "E%d-%d" % (k, fi)
+                # single-line IF is not valid: leave whatever both modes do to the model comparison, the pair oracle only fires when the file run succeeds
+                fl = [x for x in lines_e if not (form.startswith("zz") and x == "zz%d" % k)]
+                cases_e = [Case(id="C12-%s-file" % pid, prog=("\n".join(fl) + "\n").encode(), stdin=b"", meta=dict(pair=pid, role="file")),
+                           repl_case("C12-%s-repl" % pid, fl, meta=dict(pair=pid, role="repl", noshrink=True)),
+                           repl_case("C12-%s-echo" % pid, lines_e, meta=dict(units=[form % e], noshrink=True))]
+                cases.extend(cases_e)
+        yield ("entry-endings", cases[-3 * 6 * len(endings):])
         # exhaustive short histories over a small alphabet with probes
         alpha = ["v <- 1", "v <- v + 1", "DECLARE w : STRING", "w <- \"a\"", "w <- v", "v", "w", "OUTPUT v", "CONSTANT C = 3", "C <- 4", "C", "DECLARE v : INTEGER", "nope", "v <- (", "v <- 1 DIV 0", "OUTPUT \"x\", nope"]
         hl = 4 if tier == "thorough" else 3
